@@ -74,6 +74,7 @@ type session struct {
 	history []string
 	trace   bool
 	budget  int64
+	noClear bool // the host handles an error without calling Clear()
 }
 
 var totalSteps, totalEvals, okEvals, errEvals, panicEvals, budgetEvals int
@@ -159,7 +160,9 @@ func (s *session) evalWith(src string, load func(env *zygo.Zlisp) error, tags []
 		}
 	case lib.OutBudget:
 		budgetEvals++
-		env.Clear()
+		if !s.noClear {
+			env.Clear()
+		}
 	default:
 		errEvals++
 		if res.Err != nil {
@@ -172,7 +175,9 @@ func (s *session) evalWith(src string, load func(env *zygo.Zlisp) error, tags []
 			}
 			errKinds[m]++
 		}
-		env.Clear()
+		if !s.noClear {
+			env.Clear()
+		}
 	}
 	return res
 }
@@ -323,6 +328,12 @@ func main() {
 
 	// ---- (vii) registered types as callees x argument kinds x positions ----
 	s.typeMatrix(rng, args.Tier == "thorough")
+
+	// ---- (viii) set/def targets of every symbol kind; (ix) every path through branching statements;
+	//      (x) failed evaluations that the host handles without Clear(), then successful ones ----
+	s.symbolKinds()
+	s.branchPaths(args.Tier == "thorough")
+	s.errorThenSuccess(args.Tier == "thorough")
 
 	// ---- (ii)+(iii) generated programs in long histories ----
 	nhist, perHist := 12, 60
